@@ -183,9 +183,6 @@ impl ReadPlan {
             faults: vec![],
         }
     }
-    pub fn is_benign(&self) -> bool {
-        self.faults.is_empty()
-    }
 }
 
 #[derive(Debug, Clone, PartialEq, Eq)]
@@ -223,9 +220,6 @@ impl ReadShared {
     }
     pub fn n_fired(&self) -> usize {
         self.fired.borrow().len()
-    }
-    pub fn first_hard(&self) -> Option<Fired> {
-        self.fired.borrow().iter().find(|f| f.hard.is_some()).cloned()
     }
 }
 
@@ -531,9 +525,6 @@ impl SimWriter {
         self.op_limit = 4 * (expected_len as u64) + 4096;
     }
 
-    pub fn hard_or_zero_fired(&self) -> bool {
-        !self.fired.is_empty()
-    }
 }
 
 impl io::Write for SimWriter {
